@@ -182,6 +182,86 @@ def explore(arg: tuple) -> tuple:
     return ctx.stats, ctx.exhausted, dict(n), found
 
 
+def code_pair_matrix(rep: Any) -> None:
+    """K1b: which coded ignore matches which error code, over the whole table of real error codes: an
+    error with code E on a line with `# type: ignore[I]` is suppressed iff I is E or I is the code E is
+    declared a sub-code of (errorcodes.py: ErrorCode(..., sub_code_of=...)).  The pair is a solver
+    decision; both codes enabled."""
+    from mypy import errorcodes as codes
+
+    KE, KB = load()
+    ErrCls = make_errors_class(KE)
+    gate = KB["State.generate_unused_ignore_notes"]
+    # one representative object per code string (errorcodes.py defines a few strings twice)
+    table = sorted({c.code: c for c in vars(codes).values() if isinstance(c, codes.ErrorCode)}.items())
+    objs = [c for c in vars(codes).values() if isinstance(c, codes.ErrorCode)]
+    names = sorted({c.code for c in objs})
+    ctx = Ctx(max_paths=2_000_000)
+    found: dict = {}
+    n = {"p": 0, "suppressed": 0, "shown": 0}
+
+    def body(c: Ctx) -> None:
+        e = objs[c.choose("error_code", len(objs))]
+        ig = names[c.choose("ignore_code", len(names))]
+        if e.code in ("unused-ignore", "ignore-without-code", "syntax"):
+            return
+        from mypy.options import Options
+
+        o = Options()
+        o.enabled_error_codes = {e}
+        errors = ErrCls(o)
+        errors.set_file("m.py", "m", o)
+        errors.set_file_ignored_lines("m.py", {1: [ig]}, False)
+        errors.set_skipped_lines("m.py", set())
+        errors.report(1, 0, "problem", code=e)
+        shown = any(i.severity == "error" and i.code is e for i in errors.error_info_map.get("m.py", []))
+        want_suppressed = ig == e.code or (e.sub_code_of is not None and e.sub_code_of.code == ig)
+        n["p"] += 1
+        n["suppressed" if not shown else "shown"] += 1
+        c.stats["assert_queries"] += 1
+        if shown == (not want_suppressed):
+            c.stats["discharged"] += 1
+        else:
+            c.stats["refuted"] += 1
+            found.setdefault(("an ignore with another code suppresses an error" if not shown else "an ignore with the error's own (or parent) code does not suppress it"), (e.code, ig, e.sub_code_of.code if e.sub_code_of else None))
+
+    ctx.explore(body)
+    rep.add_ctx("K1b coded ignore vs error code over the whole code table", ctx, codes=len(names), outcomes=dict(n))
+    rep.twin("K1b: suppressed and shown both reached", n["suppressed"] > 0 and n["shown"] > 0)
+    rep.bounds.append(f"K1b: every (error code object, ignore code string) pair of the {len(names)} real error codes, one error on one line, code enabled")
+    for key, (ecode, ig, parent) in found.items():
+        rep.sample({"kernel": "ignore", "class": key, "error_code": ecode, "ignore_code": ig, "declared_parent": parent})
+
+        def replay(d: str, ecode: str = ecode, ig: str = ig) -> tuple[bool, str]:
+            import mypy.errors as E
+            from mypy.options import Options
+
+            e = next(c for c in vars(codes).values() if isinstance(c, codes.ErrorCode) and c.code == ecode)
+            o = Options()
+            o.enabled_error_codes = {e}
+            errors = E.Errors(o)
+            errors.set_file("m.py", "m", o)
+            errors.set_file_ignored_lines("m.py", {1: [ig]}, False)
+            errors.set_skipped_lines("m.py", set())
+            errors.report(1, 0, "problem", code=e)
+            shown = any(i.severity == "error" and i.code is e for i in errors.error_info_map.get("m.py", []))
+            want = ig == e.code or (e.sub_code_of is not None and e.sub_code_of.code == ig)
+            text = f"unmodified Errors: error [{ecode}] with '# type: ignore[{ig}]' is {'shown' if shown else 'suppressed'}"
+            bad = shown == want
+            if bad and ecode == "call-arg":
+                prog = f"def f() -> None: ...\nf(1)  # type: ignore[{ig}]\n"
+                with open(os.path.join(d, "prog.py"), "w") as f:
+                    f.write(prog)
+                env = dict(os.environ)
+                env.pop("PYTHONPATH", None)
+                p = subprocess.run([sys.executable, "-m", "mypy", "--no-incremental", "--no-error-summary", "prog.py"], cwd=d, capture_output=True, text=True, env=env, timeout=300)
+                text += f"\nreal run of\n{prog}exit {p.returncode}: {p.stdout.strip()}"
+                bad = ("[call-arg]" in p.stdout) == want
+            return bad, text
+
+        rep.candidate("ignore: " + key + f" (error [{ecode}], ignore [{ig}])", f"error code {ecode}, ignore code {ig}, declared parent {parent}", {"error": ecode, "ignore": ig}, replay)
+
+
 def run(rep: Any, tier: str) -> None:
     KE, KB = load()
     rep.kernels_from(KE)
@@ -211,6 +291,7 @@ def run(rep: Any, tier: str) -> None:
             counts[k] += n[k]
         for k, v in fnd.items():
             found.setdefault(k, v)
+    code_pair_matrix(rep)
     rep.add_ctx("K1 ignore / error-code exactness", tot, outcomes=counts)
     rep.twin("K1: shown, suppressed and unused-ignore outcomes all reached", counts["shown"] > 0 and counts["suppressed"] > 0 and counts["unused"] > 0)
     for key, (errs, ignores, states, warn, got, want) in found.items():
